@@ -14,6 +14,7 @@ import (
 	"github.com/bronlabs/bron-crypto/pkg/mpc"
 	"github.com/bronlabs/bron-crypto/pkg/mpc/dkg/trusteddealer"
 	"github.com/bronlabs/bron-crypto/pkg/mpc/session"
+	"github.com/bronlabs/bron-crypto/pkg/mpc/sharing/scheme/kw"
 	"github.com/bronlabs/bron-crypto/pkg/network"
 	"github.com/bronlabs/bron-crypto/pkg/proofs/sigma/compiler"
 
@@ -95,6 +96,7 @@ func drawQuorum(w *rand.Rand, spec *acSpec, twoOnly bool, probes map[string]int)
 func signScript[G algebra.PrimeGroupElement[G, S], S algebra.PrimeFieldElement[S]](
 	fl *signFlavor[G, S], ss signSession, id sim.ID, comp compiler.Name, seed sim.Seed,
 	shardOf func(ctx context.Context) (*mpc.BaseShard[G, S], error),
+	ctxOf ...func(ctx context.Context) (*session.Context, error),
 ) script {
 	return script{name: fmt.Sprintf("%s@%d", ss.name, id), party: id, fn: func(ctx context.Context, rt *network.Router) (any, error) {
 		shard, err := shardOf(ctx)
@@ -102,13 +104,20 @@ func signScript[G algebra.PrimeGroupElement[G, S], S algebra.PrimeFieldElement[S
 			return nil, err
 		}
 		rnd := sim.NewRand(seed.Sub(fmt.Sprintf("rand/%d/%s", id, ss.name)))
-		sr, err := session.NewSessionRunner(id, quorumOf(ss.quorum), rnd)
-		if err != nil {
-			return nil, err
-		}
-		sctx, err := sr.Run(ctx, rt.Namespaced(ss.name+"-sess"), nil)
-		if err != nil {
-			return nil, err
+		var sctx *session.Context
+		if len(ctxOf) > 0 && ctxOf[0] != nil {
+			// the signing context is a sub-context of a longer-lived session among all holders
+			if sctx, err = ctxOf[0](ctx); err != nil {
+				return nil, err
+			}
+		} else {
+			sr, err := session.NewSessionRunner(id, quorumOf(ss.quorum), rnd)
+			if err != nil {
+				return nil, err
+			}
+			if sctx, err = sr.Run(ctx, rt.Namespaced(ss.name+"-sess"), nil); err != nil {
+				return nil, err
+			}
 		}
 		return fl.sign(ctx, rt.Namespaced(ss.name+"-sign"), sctx, shard, comp, ss.msg, rnd)
 	}}
@@ -192,7 +201,12 @@ func runSignWith[G algebra.PrimeGroupElement[G, S], S algebra.PrimeFieldElement[
 		if err != nil {
 			return harness.Outcome{Violation: &harness.Violation{Class: "policy-refused", Site: "accessstructures", Detail: err.Error()}}
 		}
-		if refusedByDesign(kit, spec) {
+		if spec.expectRefusal != "" {
+			if _, err := kw.NewScheme(kit.sf(), spec.lib); err != nil {
+				return harness.Outcome{Skipped: true, Class: fl.name + " refused-hierarchical", Probes: map[string]int{"refused_interleaved_hierarchical_layout": 1}}
+			}
+			probes["accepted_layout_documented_as_unsupported"]++
+		} else if refusedByDesign(kit, spec) {
 			return harness.Outcome{Skipped: true, Class: fl.name + " refused-hierarchical", Probes: map[string]int{"refused_hierarchical_layout": 1}}
 		}
 		quorum = drawQuorum(w, spec, fl.twoPartyOnly, probes)
@@ -254,9 +268,75 @@ func runSignWith[G algebra.PrimeGroupElement[G, S], S algebra.PrimeFieldElement[
 			}})
 		}
 	}
+	// context source: a fresh session per signing session, or sub-contexts of one
+	// parent session among all holders, derived by every party in its own order
+	// (and sometimes after deriving a context for a session that never starts)
+	subMode := !fl.twoPartyOnly && w.IntN(3) == 0
+	parentReady := map[sim.ID]chan struct{}{}
+	subCtx := map[sim.ID]map[string]*session.Context{}
+	var parentErr error
+	if subMode {
+		probes["signing_context_from_subcontext"]++
+		class += " ctx=sub"
+		orderSeed := rc.Seed.Sub("suborder")
+		for _, id := range spec.ids {
+			id := id
+			parentReady[id] = make(chan struct{})
+			subCtx[id] = map[string]*session.Context{}
+			pr.start(script{name: fmt.Sprintf("P@%d", id), party: id, fn: func(ctx context.Context, rt *network.Router) (any, error) {
+				defer close(parentReady[id])
+				sr, err := session.NewSessionRunner(id, quorumOf(spec.ids), sim.NewRand(rc.Seed.Sub(fmt.Sprintf("rand/%d/P", id))))
+				if err != nil {
+					parentErr = err
+					return nil, err
+				}
+				pctx, err := sr.Run(ctx, rt.Namespaced("P-sess"), nil)
+				if err != nil {
+					parentErr = err
+					return nil, err
+				}
+				ow := orderSeed.Sub(fmt.Sprint(id)).Rand()
+				var mine []signSession
+				for _, ss := range sessions {
+					if idSet(ss.quorum)[id] {
+						mine = append(mine, ss)
+					}
+				}
+				ow.Shuffle(len(mine), func(a, b int) { mine[a], mine[b] = mine[b], mine[a] })
+				if ow.IntN(2) == 0 && len(mine) > 0 {
+					// a context prepared for a session that never starts
+					_, _ = pctx.SubContext(quorumOf(mine[0].quorum))
+				}
+				for _, ss := range mine {
+					sc, err := pctx.SubContext(quorumOf(ss.quorum))
+					if err != nil {
+						parentErr = err
+						return nil, err
+					}
+					subCtx[id][ss.name] = sc
+				}
+				return pctx, nil
+			}})
+		}
+	}
 	for _, ss := range sessions {
+		ss := ss
 		for _, id := range ss.quorum {
 			id := id
+			var ctxOf func(ctx context.Context) (*session.Context, error)
+			if subMode {
+				ctxOf = func(ctx context.Context) (*session.Context, error) {
+					select {
+					case <-parentReady[id]:
+					case <-ctx.Done():
+						return nil, ctx.Err()
+					}
+					if subCtx[id][ss.name] == nil {
+						return nil, fmt.Errorf("no signing context: %v", parentErr)
+					}
+					return subCtx[id][ss.name], nil
+				}
+			}
 			pr.start(signScript(fl, ss, id, comp, rc.Seed, func(ctx context.Context) (*mpc.BaseShard[G, S], error) {
 				if ch, ok := ready[id]; ok {
 					select {
@@ -269,7 +349,7 @@ func runSignWith[G algebra.PrimeGroupElement[G, S], S algebra.PrimeFieldElement[
 					}
 				}
 				return shards[id], nil
-			}))
+			}, ctxOf))
 		}
 	}
 	if err := pr.run(); err != nil {
